@@ -559,7 +559,11 @@ def float_binop(op, a, b):
             e.stats['nonlinear'] += 1
         return SymFloat(r=fl_of(ra * rb))
     if op == '+':
-        return SymFloat(r=fl_of(ra + rb))
+        res = SymFloat(r=fl_of(ra + rb))
+        for u, v in ((a, b), (b, a)):
+            if isinstance(v, SymFloat) and v.quot is not None and not is_floatlike(u) and zint(u) is not None:
+                res.fx = ('addq', zint(u), v.quot[0], v.quot[1])
+        return res
     if op == '-':
         return SymFloat(r=fl_of(ra - rb))
     if op == '/':
@@ -852,7 +856,7 @@ class SymFloat(object):
     Real term (an fl application) is only built when arithmetic or a comparison needs it, because floor / ceil /
     trunc of such a quotient equal those of the exact rational whenever |x| < 2^53 (the rounding error
     |x/y| 2^-53 is below 1/|y|, the distance of a non-integral x/y from the nearest integer)."""
-    __slots__ = ('iz', '_r', 'quot', 'dy')
+    __slots__ = ('iz', '_r', 'quot', 'dy', 'fx')
     __is_sym__ = True
 
     def __getattr__(self, name):
@@ -868,6 +872,7 @@ class SymFloat(object):
         # products of such values are computed exactly while they stay representable, quotients are correctly rounded
         # quotients of integers (see float_binop)
         self.dy = dy
+        self.fx = None   # ('addq', i, x, y): the value is fl(i + fl(x / y)) for integers i, x, y - kept so a harness can pose it in QF_FP
         if dy is not None and r is None:
             self._r = z3.ToReal(dy[0]) / z3.RealVal(2 ** dy[1])
 
